@@ -23,10 +23,10 @@ def plan(tier, seed):
     k = 5 if tier == 'quick' else 14
     for i in range(k):
         shards.append({'name': 'exhaustive-%d' % i, 'fn': 'shard_exhaustive', 'args': {'part': i, 'parts': k, 'nmax': 6 if tier == 'quick' else 7}})
-    nr = 5 if tier == 'quick' else 10
+    nr = 5 if tier == 'quick' else 24
     for i in range(nr):
         shards.append({'name': 'random-%d' % i, 'fn': 'shard_random', 'args': {'part': i, 'parts': nr}})
-    npl = 4 if tier == 'quick' else 10
+    npl = 4 if tier == 'quick' else 20
     for i in range(npl):
         shards.append({'name': 'planted-%d' % i, 'fn': 'shard_planted', 'args': {'part': i, 'parts': npl}})
     shards.append({'name': 'wide-codes', 'fn': 'shard_wide', 'args': {}})
@@ -106,7 +106,7 @@ def shard_random(sh, part, parts):
     est = _est()
     rng, nprng = sh.rng('random', part), sh.nprng('random', part)
     sizes = [1, 2, 3, 5, 8, 13, 50, 200, 1000] + ([5000, 20000] if sh.tier == 'thorough' else [])
-    reps = 3 if sh.tier == 'quick' else 10
+    reps = 3 if sh.tier == 'quick' else 24
     todo = [(cls, n, r) for cls in gen.PAIR_CLASSES for n in sizes for r in range(reps if n <= 1000 else 1)]
     random.Random(sh.seed).shuffle(todo)
     for t, (cls, n, r) in enumerate(gen.chunks(todo, parts)[part]):
@@ -177,7 +177,7 @@ def shard_planted(sh, part, parts):
     import numpy as np
     from outrank.algorithms import importance_estimator as ie
     est = _est()
-    seeds = range(20) if sh.tier == 'quick' else range(200)
+    seeds = range(20) if sh.tier == 'quick' else range(400)
     jobs = [(n, s) for n in (4000, 8000, 16384) for s in seeds]
     jobs = gen.chunks(jobs, parts)[part]
     if sh.tier == 'quick':
